@@ -168,3 +168,106 @@ def fold_if_assign(f):
     g = dict(f)
     g["body"] = rec(f.get("body"))
     return g
+
+
+def inline_bool_predicates(F, f, same_class_only=True, depth=0):
+    """A copy of function f in which a call of a boolean helper whose body is a chain of `if (c) return <literal>;` ending in
+    `return <expr>;` (locals initialised once, `if constexpr` resolved) is replaced by the equivalent boolean expression
+    over the caller's arguments.  Rules that collect rejection conditions then see the tests themselves."""
+    import copy
+    BOOL = {"c": "bool"}
+
+    def lit_bool(e):
+        e = strip_copy(e)
+        if isinstance(e, dict) and e.get("k") == "lit" and str(e.get("v")) in ("true", "false", "1", "0") and (e.get("lt") in ("bool",) or str(e.get("v")) in ("true", "false")):
+            return str(e["v"]) in ("true", "1")
+        return None
+
+    def subst(e, env):
+        if isinstance(e, list):
+            return [subst(x, env) for x in e]
+        if not isinstance(e, dict):
+            return e
+        if e.get("k") == "var" and e.get("id") in env:
+            return copy.deepcopy(env[e["id"]])
+        return {k_: (subst(v, env) if isinstance(v, (dict, list)) and k_ not in ("t", "ty", "lt", "to", "callee") else v) for k_, v in e.items()}
+
+    def NOT(x):
+        return {"k": "un", "op": "!", "e": x, "t": BOOL}
+
+    def BIN(op, a, b):
+        return {"k": "bin", "op": op, "l": a, "r": b, "t": BOOL, "lt": BOOL}
+
+    def pred_expr(g, args):
+        """boolean expression equivalent to g(args), or None when g is not of the supported form"""
+        if g.get("body") is None or (g.get("ret") or {}).get("c") not in (None, "bool"):
+            return None
+        env = {p_["id"]: a_ for p_, a_ in zip(g["params"], args)}
+        stmts = list(g["body"].get("body", []))
+        flat = []
+
+        def flatten(sts):
+            for st in sts:
+                if isinstance(st, dict) and st.get("k") == "block":
+                    flatten(st.get("body", []))
+                elif isinstance(st, dict) and st.get("k") == "if" and st.get("constexpr") and st.get("taken"):
+                    br = st.get(st["taken"])
+                    if br is not None:
+                        flatten([br])
+                else:
+                    flat.append(st)
+        flatten(stmts)
+        chain = []
+        final = None
+        for st in flat:
+            if not isinstance(st, dict):
+                return None
+            k = st.get("k")
+            if k == "null":
+                continue
+            if k == "decl" and st.get("init") is not None and st.get("bind") != "alias":
+                env[st["id"]] = subst(st["init"], env)
+                continue
+            if k == "if" and st.get("else") is None and not st.get("constexpr") and st.get("init") is None:
+                th = st["then"]
+                while isinstance(th, dict) and th.get("k") == "block" and len(th.get("body", [])) == 1:
+                    th = th["body"][0]
+                if not (isinstance(th, dict) and th.get("k") == "return" and th.get("e") is not None):
+                    return None
+                lv = lit_bool(th["e"])
+                if lv is None:
+                    return None
+                chain.append((subst(st["cond"], env), lv))
+                continue
+            if k == "return" and st.get("e") is not None:
+                final = subst(st["e"], env)
+                break
+            return None
+        if final is None:
+            return None
+        expr = final
+        fl = lit_bool(final)
+        for c, lv in reversed(chain):
+            if lv:      # c ? true : expr
+                expr = c if fl is False else ({"k": "lit", "v": "true", "lt": "bool", "t": BOOL} if fl is True else BIN("||", c, expr))
+            else:       # c ? false : expr
+                expr = NOT(c) if fl is True else ({"k": "lit", "v": "false", "lt": "bool", "t": BOOL} if fl is False else BIN("&&", NOT(c), expr))
+            fl = lit_bool(expr)
+        return expr
+
+    def rec(n):
+        if isinstance(n, list):
+            return [rec(x) for x in n]
+        if not isinstance(n, dict):
+            return n
+        if n.get("k") == "call" and (n.get("callee") or {}).get("repo") and ((n.get("t") or {}).get("c") == "bool"):
+            g = F.by_fid.get(n["callee"].get("fid"))
+            if g is not None and g["fid"] != f["fid"] and (not same_class_only or g.get("cls") == f.get("cls")) and (n.get("obj") is None or (n["obj"] or {}).get("k") == "this") and depth < 4:
+                g2 = inline_bool_predicates(F, g, same_class_only, depth + 1)
+                ex = pred_expr(g2, [rec(a) for a in n.get("args", [])])
+                if ex is not None:
+                    return ex
+        return {k_: (rec(v) if isinstance(v, (dict, list)) and k_ not in ("t", "ty", "lt", "to", "callee") else v) for k_, v in n.items()}
+    g = dict(f)
+    g["body"] = rec(f.get("body"))
+    return g
